@@ -35,6 +35,8 @@ func init() {
 			Run: func(P *Program, R *Report) { canProveRule(P, R, "C16.f") }},
 		Rule{ID: "C16.g", Explain: "no failure is dropped during key generation and validation (gabikeys/keys.go, safeprime/): a failed prime search, generator or ECDSA key step ends the call (same rule as C08.g: the error a call returns has a use - a nil test or a return - before it is overwritten, shadowed or left behind).",
 			Run: func(P *Program, R *Report) { errorResultsUsedRule(P, R, "C16.g", inFiles(P, "gabikeys/keys.go", "safeprime/"), nil, 10) }},
+		Rule{ID: "C16.h", Explain: "consistent derived parameters: MakeDerivedParameters computes every derived length by its specified formula (the obligations of C13.b, same rule), so that the parameter tables and the Params of every generated key agree with the specification.",
+			Run: func(P *Program, R *Report) { sharedRule(P, R, "C13", "C13.b", "C16.h", func(c string) bool { return strings.Contains(c, "MakeDerivedParameters") }) }},
 	)
 }
 
@@ -1085,6 +1087,50 @@ func canProveRule(P *Program, R *Report, rule string) {
 		}
 	})
 	R.decide(rule, "keyproof.CanProve:residues", "CanProve compares residues modulo 8 of P, Q and their halves (>= 4 comparisons)", m >= 4, fmt.Sprintf("%d comparisons", m), P.Pos(fn.Pos()))
+	// the six residue conditions, each between the right pair: true => X mod 8 != 1 for X in {P, Q, P', Q'},
+	// P mod 8 != Q mod 8 and P' mod 8 != Q' mod 8
+	be := P.bigEval(fn)
+	full := func(half string) Term { return tsum(tmul(tconst(2), tsym(half)), tconst(1)) }
+	res := func(t Term) Term { return termFn("Mod", t, tconst(8)) }
+	pp, qp := tsym("arg#0"), tsym("arg#1")
+	conds := []struct {
+		name string
+		x, y Term
+	}{
+		{"P!=1", res(full("arg#0")), tconst(1)}, {"Q!=1", res(full("arg#1")), tconst(1)},
+		{"P'!=1", res(pp), tconst(1)}, {"Q'!=1", res(qp), tconst(1)},
+		{"P!=Q", res(full("arg#0")), res(full("arg#1"))}, {"P'!=Q'", res(pp), res(qp)},
+	}
+	var seenT []string
+	for _, cd := range conds {
+		cd := cd
+		mp(P, R, rule, "keyproof.CanProve:residue("+cd.name+")", "true => the residues modulo 8 satisfy "+cd.name, fn, AcceptTrue(0), &MustPass{Match: func(a Atom) bool {
+			a = normAtom(a)
+			bo, ok := a.V.(*ssa.BinOp)
+			if !ok {
+				return false
+			}
+			c, isC := stripConv(bo.X).(*ssa.Call)
+			k, isK := constInt(bo.Y)
+			if !isC || !isK || k != 0 || bigMethod(c) != "Cmp" {
+				return false
+			}
+			rel := tokRel(bo.Op)
+			if a.Want == False {
+				rel = relNeg[rel]
+			}
+			if rel != "!=" {
+				return false
+			}
+			ts := be.at(c)
+			if len(ts) != 2 {
+				return false
+			}
+			seenT = append(seenT, ts[0].String()+" != "+ts[1].String())
+			return (ts[0].equal(cd.x) && ts[1].equal(cd.y)) || (ts[0].equal(cd.y) && ts[1].equal(cd.x))
+		}})
+	}
+	_ = seenT
 }
 
 // disabledStub: in build configurations where generation is compiled out (android, ios) the function
